@@ -1,3 +1,42 @@
+/// `TimeScale` is opaque here; `get_position` is an arbitrary function of (timescale, time) whose
+/// result is a valid position (A7: that is route K's proved contract of the real get_position, C03).
+#[verifier::external_body]
+pub struct TimeScale { _p: u8 }
+
+pub uninterp spec fn spec_position(ts: &TimeScale, time: f32) -> TimeScalePosition;
+
+impl TimeScale {
+    #[verifier::external_body]
+    pub fn get_position(&self, time: f32) -> (r: TimeScalePosition)
+        ensures
+            r == spec_position(self, time),
+            match r {
+                TimeScalePosition::Active(t, _) => pos01(t),
+                TimeScalePosition::Ended(t) => pos01(t),
+                TimeScalePosition::NotStarted => true,
+            },
+    { unimplemented!() }
+}
+
+/// Master keyframe positions: valid and non-decreasing (the builder sorts them, C11).
+pub open spec fn sorted_pos(bt: Seq<f32>) -> bool {
+    &&& forall|i: int| 0 <= i < bt.len() ==> pos01(#[trigger] bt[i])
+    &&& forall|i: int, j: int| 0 <= i <= j < bt.len() ==> fle(#[trigger] bt[i], #[trigger] bt[j])
+}
+
+/// A7 (V-R8): std's documented contract of `slice::binary_search_by` with `total_cmp` on a sorted
+/// slice of valid positions.  `total_cmp` Less/Equal implies `<=` for non-NaN values (Kani lemma
+/// `total_cmp_order_implies_fle`), hence the non-strict comparisons.  The body is the call the
+/// real code makes; it is not verified here (the bounded Kani harnesses execute the real search).
+#[verifier::external_body]
+pub fn bsearch_total_cmp(s: &[f32], x: f32) -> (r: Result<usize, usize>)
+    requires sorted_pos(s@), pos01(x),
+    ensures match r {
+        Ok(i) => i < s@.len() && fle(s@[i as int], x) && fle(x, s@[i as int]),
+        Err(i) => i <= s@.len() && (forall|j: int| 0 <= j < i ==> fle(#[trigger] s@[j], x)) && (forall|j: int| i <= j < s@.len() ==> fle(x, #[trigger] s@[j])),
+    }
+{ s.binary_search_by(|t| t.total_cmp(&x)) }
+
 /// The value `interpolate_value` produces for a pair of frames at a position: uninterpreted here;
 /// its definition (start.lerp(end, start.easing((t - t0)/(t1 - t0))), start value for a
 /// zero-length pair) is what route K proves of the real function.
